@@ -1279,7 +1279,7 @@ func (s *shardedSearcher) replace(shards map[string]zoekt.Searcher) {
 	metricShardsLoaded.Set(float64(len(ranked)))
 }
 
-func loadShard(fn string) (zoekt.Searcher, error) {
+func loadShard(fn string) (_ zoekt.Searcher, err error) {
 	f, err := os.Open(fn)
 	if err != nil {
 		return nil, err
@@ -1289,6 +1289,16 @@ func loadShard(fn string) (zoekt.Searcher, error) {
 	if err != nil {
 		return nil, err
 	}
+
+	// Shards are loaded on goroutines of the loader. A corrupt shard must fail
+	// to load, not take down the process (and with it all other shards).
+	defer func() {
+		if r := recover(); r != nil {
+			iFile.Close()
+			err = fmt.Errorf("NewSearcher(%s): panic: %v", fn, r)
+		}
+	}()
+
 	s, err := index.NewSearcher(iFile)
 	if err != nil {
 		iFile.Close()
